@@ -150,7 +150,7 @@ C17_CancelCompletes ==
   (Quiescent /\ wf.canceled) =>
      /\ wf.status \in Final
      /\ \A s \in gh.unfinishedAtCancel :     \* (a stage disabled by its own condition may end SKIPPED: it never runs either)
-           st[s].status = "CANCELED" \/ (P.enabled[s] = "no" /\ st[s].status = "SKIPPED")
+           st[s].status = "CANCELED" \/ (P.enabled[s] \in {"no", "expired"} /\ st[s].status = "SKIPPED")
      /\ (gh.unfinishedAtCancel # {} /\ ~\E s \in TopLevel \cap DOMAIN st : st[s].status \in {"TERMINAL", "STOPPED"})
           => wf.status = "CANCELED"
 
